@@ -247,7 +247,8 @@ func (e *c15Env) drop(i int) {
 		return
 	}
 	if cl.used {
-		_ = cl.req.Close()
+		// Requester.Close dereferences its transport, which is nil if dialling failed
+		c15h.Catch(func() { _ = cl.req.Close() })
 	}
 	if cl.conn != nil {
 		_ = cl.conn.Close()
@@ -507,6 +508,8 @@ func TestVerif_C15_exchange(t *testing.T) {
 	if err != nil {
 		t.Fatalf("harness problem: %v", err)
 	}
+	log.SetFlags(0)
+	log.SetOutput(e.logs)
 	defer func() {
 		for i := range e.clients {
 			e.drop(i)
